@@ -96,7 +96,55 @@ def gen_cases(rng, tier):
             ts.append({"strand": strand, "exons": exons})
         cases.append({"k": "introns", "ts": ts, "merge": rng.random() < 0.8, "numeric": rng.random() < 0.5,
                       "via": rng.choice(["grandparent", "parent"])})
+    # the same through a whole database: the model imports the features, picks transcripts and exons itself
+    # (Model/Introns.v) - several genes, transcripts under two genes, exons shared by transcripts, children that are not
+    # exons, exons directly under a gene
+    for i in range(200 if tier == "quick" else 3000):
+        cases.append({"k": "introns_db", "feats": gen_hierarchy(rng), "merge": rng.random() < 0.8, "numeric": rng.random() < 0.4,
+                      "via": rng.choice(["grandparent", "parent"])})
     return cases
+
+
+def gen_hierarchy(rng):
+    feats = []
+    pos = rng.randrange(1, 60)
+    ngenes = rng.choice([1, 1, 2])
+    eid = 0
+    tids_by_gene = []
+    for g in range(ngenes):
+        strand = rng.choice(["+", "-", "."])
+        feats.append(imp.mkfeat(seqid="chr1", source="src", type_="gene", s=1, e=9000, strand=strand, attrs=[["ID", ["g%d" % g]]]))
+        tids = []
+        for t in range(rng.choice([1, 1, 2, 3])):
+            tid = "g%d.t%d" % (g, t)
+            tids.append(tid)
+            parents = ["g%d" % g]
+            if g > 0 and rng.random() < 0.25:
+                parents.append("g0")                     # a transcript under two genes is visited once per gene
+            feats.append(imp.mkfeat(seqid="chr1", source="src", type_=rng.choice(["mRNA", "mRNA", "ncRNA"]), s=1, e=9000,
+                                    strand=rng.choice([strand, strand, "+", "-"]), attrs=[["ID", [tid]], ["Parent", parents]]))
+        tids_by_gene.append(tids)
+        for x in range(rng.choice([0, 1, 2, 3, 5, 7])):
+            eid += 1
+            s = pos + rng.choice([1, 2, 3, 10, 40])       # strictly increasing starts over the whole file
+            e = s + rng.choice([0, 1, 9, 30])
+            pos = max(s, e + rng.choice([-3, 0, 0, 1, 5]))
+            ps = [rng.choice(tids)]
+            if len(tids) > 1 and rng.random() < 0.4:
+                ps = sorted(set(ps + [rng.choice(tids)]))
+            if rng.random() < 0.1:
+                ps = ["g%d" % g]                            # an exon directly under the gene
+            attrs = ([["ID", ["e%d" % eid]]] if rng.random() < 0.92 else []) + [["Parent", ps]]
+            if rng.random() < 0.7:
+                attrs.append(["exon_number", [rng.choice([str(x + 1), str(x + 1), "10", "a"])]])
+            feats.append(imp.mkfeat(seqid=rng.choice(["chr1"] * 9 + ["chr2"]), source="src", type_="exon", s=s, e=e,
+                                    strand=rng.choice([strand, strand, "+"]), attrs=attrs))
+            if rng.random() < 0.3:
+                feats.append(imp.mkfeat(seqid="chr1", source="src", type_="CDS", s=s, e=e, strand=strand, frame="0",
+                                        attrs=[["Parent", [ps[0]]]]))
+    if rng.random() < 0.6:
+        rng.shuffle(feats)                                  # file order is not start order (ORDER BY start has to do the work)
+    return feats
 
 
 def valid_case(c):
@@ -130,6 +178,11 @@ def valid_case(c):
                         return False
                     last = x["s"]
             return c["via"] in ("grandparent", "parent")
+        if c["k"] == "introns_db":
+            starts = [f["s"] for f in c["feats"] if f["type"] == "exon"]
+            if len(set(starts)) != len(starts) or not c["feats"]:
+                return False                               # ties under ORDER BY start are not ordered by SQL
+            return c["via"] in ("grandparent", "parent") and all(f["s"] is not None and 1 <= f["s"] <= f["e"] for f in c["feats"])
         return False
     except Exception:
         return False
@@ -150,6 +203,11 @@ def shrinks(c):
             yield dict(c, cfg=dict(cfg, numeric=False))
         if cfg["newft"] is not None:
             yield dict(c, cfg=dict(cfg, newft=None))
+    elif c["k"] == "introns_db":
+        fs = c["feats"]
+        for i in range(len(fs)):
+            if len(fs) > 1:
+                yield dict(c, feats=fs[:i] + fs[i + 1:])
     else:
         ts = c["ts"]
         for i in range(len(ts)):
@@ -201,6 +259,24 @@ def run_impl(c):
         except Exception as ex:
             res = ["err", L.err_class(ex)]
         return {"out": res, "unchanged": [(str(o), o.id) for o in objs] == before, "ids": [o.id for o in objs]}
+    if c["k"] == "introns_db":
+        try:
+            db = gffutils.create_db([imp.to_feature(f) for f in c["feats"]], ":memory:", verbose=False)
+        except Exception as ex:
+            return {"introns": ["err", "Other"], "sites": ["err", "Other"], "import": L.err_class(ex)}
+        before = imp.dump_tables(db.conn)
+        kw = dict(merge_attributes=c["merge"], numeric_sort=c["numeric"])
+        if c["via"] == "parent":
+            kw.update(grandparent_featuretype=None, parent_featuretype="mRNA")
+        out = {}
+        for tag, fn in (("introns", db.create_introns), ("sites", db.create_splice_sites)):
+            try:
+                out[tag] = rows_result(list(fn(**kw)))
+            except Exception as ex:
+                out[tag] = ["err", L.err_class(ex)]
+        if imp.dump_tables(db.conn) != before:
+            out["introns"] = ["err", "Other"]          # the database must be unchanged
+        return out
     lines = ["chr1\tsrc\tgene\t1\t5000\t.\t+\t.\tID=g1"]
     n = 0
     for ti, t in enumerate(c["ts"]):
@@ -238,6 +314,10 @@ def coq_case(c, o):
     if c["k"] == "inter":
         rows = L.lst([imp.coq_row(f, i) for f, i in zip(c["feats"], o["ids"])], "row")
         return "CInter %s %s %s %s" % (coq_cfg(c["cfg"]), rows, coq_rows(o["out"]), L.b(o["unchanged"]))
+    if c["k"] == "introns_db":
+        via = "(ViaGrandparent %s)" % L.s("gene") if c["via"] == "grandparent" else "(ViaParent %s)" % L.s("mRNA")
+        return "CIntronsDb %s %s %s %s %s %s" % (L.lst([imp.coq_row(f) for f in c["feats"]], "row"), via, L.b(c["merge"]),
+                                                  L.b(c["numeric"]), coq_rows(o["introns"]), coq_rows(o["sites"]))
     ts = []
     n = 0
     for ti, t in enumerate(c["ts"]):
@@ -260,7 +340,7 @@ def labels(c, o):
         yield "merge=%s,numeric=%s,newft=%s,update=%s" % (cfg["merge"], cfg["numeric"], cfg["newft"] is not None, bool(cfg["update"]))
         yield "outputs=%s" % (min(len(o["out"][1]), 4) if o["out"][0] == "ok" else "ERR-" + o["out"][1])
     else:
-        yield "transcripts=%d" % len(c["ts"])
+        yield "transcripts=%d" % (len(c["ts"]) if c["k"] == "introns" else sum(1 for f in c["feats"] if f["type"] in ("mRNA", "ncRNA")))
         yield "via=" + c["via"]
         for tag in ("introns", "sites"):
             yield "%s=%s" % (tag, min(len(o[tag][1]), 6) if o[tag][0] == "ok" else "ERR-" + o[tag][1])
@@ -272,6 +352,8 @@ def nontrivial_key(c, o):
         return (pat, c["cfg"]["merge"], c["cfg"]["numeric"], c["cfg"]["newft"])
     if c["k"] == "introns" and o["introns"][0] == "ok" and o["introns"][1]:
         return ("introns", tuple(len(t["exons"]) for t in c["ts"]), tuple(t["strand"] for t in c["ts"]), c["merge"], c["numeric"])
+    if c["k"] == "introns_db" and o["introns"][0] == "ok" and o["introns"][1]:
+        return ("introns_db", tuple(f["type"][0] for f in c["feats"])[:12], c["via"], c["merge"], c["numeric"])
     return None
 
 
